@@ -628,6 +628,36 @@ func (m *amach) run(name string) {
 			jump(C.Or(m.flagBit(m.fl.zf, "ZF", in), C.Not(C.Iff(m.flagBit(m.fl.sf, "SF", in), m.flagBit(m.fl.of, "OF", in)))))
 		case "JG", "JGT":
 			jump(C.And(C.Not(m.flagBit(m.fl.zf, "ZF", in)), C.Iff(m.flagBit(m.fl.sf, "SF", in), m.flagBit(m.fl.of, "OF", in))))
+		case "REP;", "REP":
+			// REP; MOVSQ with the direction flag clear (Go's ABI guarantee): CX quadwords are copied from
+			// [SI] to [DI] in ASCENDING address order, one at a time (overlap is therefore significant)
+			if !strings.Contains(in.text, "MOVSQ") {
+				m.fail("unsupported string instruction %q (line %d of %s)", in.text, in.line, fn.file)
+			}
+			cnt := m.intv(m.reg("CX"), in)
+			if !cnt.IsConst() {
+				m.fail("REP; MOVSQ with a symbolic count (line %d)", in.line)
+			}
+			src, dst := m.reg("SI").p, m.reg("DI").p
+			if src == nil || dst == nil {
+				m.fail("REP; MOVSQ without pointer operands (line %d)", in.line)
+			}
+			sp, dp := *src, *dst
+			for i := int64(0); i < cnt.C.Int64(); i++ {
+				v := m.loadMem(&sp, 8, in)
+				if dp.table || dp.byteOff%8 != 0 {
+					m.fail("bad REP; MOVSQ destination")
+				}
+				if dp.byteOff < dp.loB || dp.byteOff+8 > dp.hiB {
+					m.p.failNow("C07.asm.bounds", fmt.Sprintf("store outside the slice extent [%d,%d) at byte %d in %q (line %d)", dp.loB, dp.hiB, dp.byteOff, in.text, in.line))
+					panic(abortPath{"asm store out of bounds"})
+				}
+				dp.obj.Cells[dp.byteOff/8] = v
+				sp.byteOff += 8
+				dp.byteOff += 8
+			}
+			m.regs["SI"], m.regs["DI"] = aval{p: &sp}, aval{p: &dp}
+			m.regs["CX"] = aval{t: C.Int(0)}
 		default:
 			m.fail("unsupported instruction %q (line %d of %s)", in.text, in.line, fn.file)
 		}
